@@ -363,6 +363,9 @@ pub fn c03_programs(c: &Corpus) -> Vec<Vec<PoolOp>> {
         v.push(vec![po(d.clone()), po(EOp::ZeroizedCopyEncoded(0)), po(EOp::Double(0))]);
         v.push(vec![po(d), po(EOp::MulU64(0, 3)), po(EOp::IntoGroup(1))]);
     }
+    // a wiped value is encoded before anything else on the thread, then ordinary elements follow
+    v.push(vec![po(EOp::ZeroizedCopyEncoded(0)), po(EOp::Generator), po(EOp::Double(1))]);
+    v.push(vec![po(EOp::ZeroizedCopyEncoded(0)), po(EOp::Decode(hex(&c.valid[11])))]);
     for x in [1u64, 5] {
         let mut b = [0u8; 32];
         b[0] = x as u8;
